@@ -42,6 +42,14 @@ def cell_list(ctx, rule):
 
     # ---------------------------------------------------------------- R1
     ce = ConstEval({k: v for k, v in env.items()})
+    # module-level tables (the stencil may be a named constant, possibly computed)
+    for st_ in mod.tree.body:
+        if isinstance(st_, (ast.Assign, ast.AnnAssign)) and getattr(st_, 'value', None) is not None:
+            tg_ = st_.targets[0] if isinstance(st_, ast.Assign) else st_.target
+            if isinstance(tg_, ast.Name) and tg_.id not in ce.env:
+                v_ = ConstEval(dict(ce.env)).ev(st_.value)
+                if v_ is not UNKNOWN:
+                    ce.env[tg_.id] = v_
     offsets = ce.ev(loop.iter)
     if offsets is UNKNOWN or not isinstance(offsets, (list, tuple)):
         raise AnalysisError('C11.R1: neighbour stencil is not a foldable literal: '
